@@ -342,12 +342,12 @@ PROPERTIES['C07'] = {
 PROPERTIES['C13'] = {
     'level': 'proof',
     'configs': lambda tier: [B, D] if tier == 'quick' else [B, D, extract.flip(B, 'nostats'), extract.flip(D, 'nostats')],
-    'rules': [R(mutex.mx1), R(mutex.mx2), R(mutex.mx3), R(mutex.mx4)],
+    'rules': [R(mutex.mx1), R(mutex.mx2), R(mutex.mx3), R(mutex.mx4), R(mutex.mx6)],
     'technique': 'static analysis: forward dataflow (named owning guard alive at every access to the wrapped index), path-sensitive rule for the lock handed out with a hit',
     'explanation': 'MX-1: by forward dataflow over every member function of both mutex_db instantiations (scan member templates and statistics getters included), every access to the wrapped db happens while a NAMED std::lock_guard/std::unique_lock constructed on the one `mutex` member is alive and owning '
                    '(an unnamed temporary lock dies at the end of its statement and does not count; unlock() ends ownership). Hence every operation runs inside one critical section of one mutex: operations are totally ordered by lock acquisition and each behaves as the sequential db, i.e. linearizable. '
                    'MX-3: no member function takes the mutex twice on one path (a second lock object, or a call of another locking member): one operation is one critical section, no check-then-act. '
-                   'MX-4: no member function returns a reference or pointer - every result is a value copied under the lock (a reference to the live node counters would be read after the guard is gone). MX-5: the lock object never leaves its function - not captured by a lambda, not passed on by reference (a scan callback that may unlock it ends the critical section mid-operation); returning it by std::move is judged by MX-2. MX-2: path-sensitively on the has-value test of the lookup result, get_internal returns std::move(guard) (still owning) exactly on has-value paths and an empty lock exactly on no-value paths; no other member returns a lock type.',
+                   'MX-6: the mutex is only ever taken through scope-bound guard objects (no direct lock() / unlock() on the member), so no operation returns with the lock held when it leaves by an exception either ("no other operation returns with the lock held"). MX-4: no member function returns a reference or pointer - every result is a value copied under the lock (a reference to the live node counters would be read after the guard is gone). MX-5: the lock object never leaves its function - not captured by a lambda, not passed on by reference (a scan callback that may unlock it ends the critical section mid-operation); returning it by std::move is judged by MX-2. MX-2: path-sensitively on the has-value test of the lookup result, get_internal returns std::move(guard) (still owning) exactly on has-value paths and an empty lock exactly on no-value paths; no other member returns a lock type.',
     'decides': 'atomicity of every mutex_db operation; lock handed out exactly on a hit',
     'does_not_decide': 'sequential correctness of db (C01), correctness of std::mutex',
     'trusted_base': ['clang 14 front end', 'usa extractor and rule engine', 'std::mutex / std::lock_guard / std::unique_lock semantics', 'sequential correctness of unodb::db'],
